@@ -246,7 +246,39 @@ def thorough_extras(env, text):
     if res.rc == 99 or nerr:
         env.violation("C13:memcheck", "valgrind memcheck reported %d error(s):\n%s" % (nerr, vg[-1500:]), workload="hostile")
     miri_slice(env, text)
+    giant_inputs(env)
     census(env, text)
+
+
+def giant_inputs(env):
+    """Inputs of 2^32+5 bytes on the build with debug assertions and overflow checks on: a message through seal and
+    both opening forms, and info / psk / exporter context / ikm strings.  Only 'returns without panicking' is judged."""
+    from lib import giant
+    g = gen.G(env.rnd)
+    cw = cl.CaseW()
+    n = giant.N
+    s = cw.session(0x0020, 1, 3, sid="GM")
+    gen.add_pair(s, g, 0x0020, 0)
+    s.call("giant", cs="S", cr="R", len=n, aad="6161", api="inplace", cls="giant_message")
+    s.call("giant", cs="S", cr="R", len=n, aad="-", api="alloc", cls="giant_message")
+    giant.build(cw, g, gen, ["info", "psk", "exctx", "ikm"], [(0x0020, 1, 1)], n)
+    res = env.drive("giant", cw.text(), build="checked", timeout=14400)
+    if res.timed_out:
+        env.note("giant inputs: watchdog (inconclusive for this sub-run only)")
+        return
+    judged = 0
+    for ss in res.sessions:
+        for o in (ss.all_ops or ss.ops):
+            if o.op not in ("giant", "giant_str"):
+                continue
+            judged += 1
+            env.count("evaluations", 1)
+            if o.ret is None:
+                env.violation("C13:abort:%s" % o.op, "%s with 2^32+5 bytes never returned (process exit %s)" % (o.raw[:120], res.rc), case_text=ss.case_text(o.id), workload="hostile")
+            elif o.panic():
+                env.violation("C13:panic:%s:%s" % (o.op, o.args.get("which", "message")), "2^32+5 bytes of %s: panic %s" % (o.args.get("which", "message"), o.panic()[:200]),
+                              case_text=ss.case_text(o.id), workload="hostile")
+    env.extra_cov["giant_inputs_on_checked_build"] = {"bytes": n, "calls": judged}
 
 
 def miri_slice(env, text):
